@@ -395,6 +395,9 @@ def builtin_call(self, name, e, st):
             elif v.ty == "slist":
                 from .sorts import slen
                 yield st1, Val(slen(v.t), "int")
+            elif v.ty == "sexp":
+                from .sorts import slen
+                yield st1, Val(z3.If(SExp.is_Lst(v.t), slen(SExp.items(v.t)), z3.Length(SExp.s(v.t))), "int")
             elif is_ref(v.ty) and v.ty[1].startswith("dict_"):
                 yield st1, Val(z3.Length(self.read_field(st1, v, v.ty[1], "keys").t), "int")
             else:
